@@ -433,4 +433,27 @@ theorem swapper_early_exit_inconsistent :
     crossTrace overSwapper 1 0 2 = [{ comm := "sub1", op := "Allgather", send := 0, recv := 0 }] := by
   decide +kernel
 
+/-! ### checkpoints (finding F30) -/
+
+/-- **every member creates the same dataset**: the collectives of `Grid.writeH5Dataset` and their arguments (file name, dataset
+    name and SHAPE, attribute, close) depend on the numbers of points the grid was given and on the ordering of the current
+    layout only — not on what the layout of this process knows (a plot-only process knows no points). -/
+theorem checkpoint_trace_rank_independent (nGlobal ext1 ext2 ord : List Nat) (file : String) :
+    checkpointTrace true nGlobal ext1 ord file = checkpointTrace true nGlobal ext2 ord file := rfl
+
+/-- the dataset has the global shape in the stored ordering -/
+theorem checkpoint_trace_shape (nGlobal ext ord : List Nat) (file : String) :
+    (checkpointTrace true nGlobal ext ord file).map (·.shape) =
+      [[], ord.map (fun d => nGlobal.getD d 0), [ord.length], []] := rfl
+
+/-- **before F30 a plot-only process created another dataset** (`decide`): grid of 8⁴ points in the `v_parallel` ordering; a
+    computing process gives `(8,8,8,8)`, the plot-only process — whose layout was built from empty coordinate lists — gives
+    `(0,0,0,0)` to the same collective call; the repaired code gives the same shape on both. -/
+theorem checkpoint_trace_old_plot_rank_differs :
+    checkpointTrace false [8, 8, 8, 8] [8, 8, 8, 8] [0, 2, 1, 3] "grid_000000.h5" ≠
+      checkpointTrace false [8, 8, 8, 8] [0, 0, 0, 0] [0, 2, 1, 3] "grid_000000.h5" ∧
+    checkpointTrace true [8, 8, 8, 8] [8, 8, 8, 8] [0, 2, 1, 3] "grid_000000.h5" =
+      checkpointTrace true [8, 8, 8, 8] [0, 0, 0, 0] [0, 2, 1, 3] "grid_000000.h5" := by
+  decide
+
 end PygyroVerif.C06
